@@ -4,6 +4,7 @@ import (
 	"crypto/tls"
 	"fmt"
 	"math/rand"
+	"net"
 	"runtime"
 	"strconv"
 	"strings"
@@ -94,7 +95,7 @@ type c05Stream struct{}
 func (c05Stream) Name() string               { return "c05" }
 func (c05Stream) CaseTimeout() time.Duration { return 60 * time.Second }
 func (c05Stream) Rule() string {
-	return "one real server, one client connection (plain / TLS listener / StartTLS-upgraded), N pipelined search requests (N 2..400) whose handlers rendezvous and then each write K entries of S bytes (S from 10 bytes to 1 MiB, i.e. far beyond the 4 KiB write buffer) plus a SearchDone, with fast or slow readers and GOMAXPROCS 1..16; oracle: the received stream splits into whole LDAPMessages, exactly one per successful Write, per-writer order preserved, nothing duplicated or lost; the hook trace (locked/written/flushed/unlock) is replayed through the Lean writer model; non-trivial = N >= 2 writers overlapping in time, distinct by scenario"
+	return "one real server, one client connection (plain / TLS listener / StartTLS-upgraded), N pipelined search requests (N 2..400) whose handlers rendezvous and then each write K entries of S bytes (S from 10 bytes to 1 MiB, i.e. far beyond the 4 KiB write buffer) plus a SearchDone, with fast or slow readers and GOMAXPROCS 1..16; in one case of six the client keeps the pipeline full and Stop is called after the third frame (then every frame up to the hang-up must still be whole and in per-writer order, the notice of disconnection included); oracle: the received stream splits into whole LDAPMessages, exactly one per successful Write, per-writer order preserved, nothing duplicated or lost; the hook trace (locked/written/flushed/unlock) is replayed through the Lean writer model; non-trivial = N >= 2 writers overlapping in time, distinct by scenario"
 }
 
 func (c05Stream) Generate(rng *rand.Rand, n int, thorough bool) []Case {
@@ -112,6 +113,12 @@ func (c05Stream) Generate(rng *rand.Rand, n int, thorough bool) []Case {
 			size = 1 << 20
 			w = 4
 			k = 2
+		}
+		if rng.Intn(6) == 0 {
+			// Stop arrives while the client is still pipelining and handlers are writing
+			cs = append(cs, Case{Line: fmt.Sprintf("c05 n=%d k=%d size=%d mode=%s slow=0 procs=%d stop=1", []int{4, 8, 16}[rng.Intn(3)], 2+rng.Intn(2),
+				[]int{1000, 5000, 20000}[rng.Intn(3)], modes[rng.Intn(4)], []int{2, 4, 16}[rng.Intn(3)]), Kind: "stop"})
+			continue
 		}
 		cs = append(cs, Case{Line: fmt.Sprintf("c05 n=%d k=%d size=%d mode=%s slow=%d procs=%d", w, k, size, modes[rng.Intn(4)],
 			rng.Intn(3)/2, []int{1, 2, 4, 16}[rng.Intn(4)]), Kind: "writers"})
@@ -136,8 +143,10 @@ func (c05Stream) Impl(c Case) string {
 		if err != nil {
 			return
 		}
-		started.Done()
-		started.Wait() // rendezvous: all writers are alive before anyone writes
+		if m.GetID() < int64(100+n) {
+			started.Done()
+			started.Wait() // rendezvous: all writers are alive before anyone writes
+		}
 		for i := 0; i < k; i++ {
 			e := r.NewSearchResponseEntry(fmt.Sprintf("w%d-%d", m.GetID(), i), gldap.WithAttributes(map[string][]string{"p": {payload}}))
 			if err := w.Write(e); err == nil {
@@ -164,15 +173,41 @@ func (c05Stream) Impl(c Case) string {
 		nd, _ := r.Node()
 		req = append(req, nd.Ser()...)
 	}
-	go func() { _ = cl.send(req) }()
+	stopMode := p["stop"] == "1"
+	go func() {
+		_ = cl.send(req)
+		for i := n; stopMode; i++ {
+			// keep the pipeline full until the server hangs up
+			r := Req{Kind: "search", ID: int64(100 + i), DN: "dc=x", Scope: 2, Filter: "(objectClass=*)"}
+			nd, _ := r.Node()
+			if err := cl.send(nd.Ser()); err != nil {
+				return
+			}
+		}
+	}()
 	done := 0
 	next := map[int64]int{}
 	verdict := "ok"
-	for done < n {
-		f, err := cl.readFrame(30 * time.Second)
+	frames := 0
+	for stopMode || done < n {
+		to := 30 * time.Second
+		if stopMode {
+			to = 8 * time.Second
+		}
+		f, err := cl.readFrame(to)
 		if err != nil {
+			if stopMode {
+				if ne, ok := err.(net.Error); ok && ne.Timeout() {
+					verdict = "stream broken: the server neither sent a whole frame nor closed the connection within 8s of Stop"
+				}
+				break // the server hung up (a last, failed Write may have left a partial frame)
+			}
 			verdict = "stream broken: " + err.Error()
 			break
+		}
+		frames++
+		if stopMode && frames == 3 {
+			go sut.stop(15 * time.Second)
 		}
 		if p["slow"] == "1" {
 			time.Sleep(200 * time.Microsecond)
@@ -195,6 +230,9 @@ func (c05Stream) Impl(c Case) string {
 		} else if strings.HasPrefix(v, "result ") {
 			var tag, code int
 			fmt.Sscanf(v, "result id=%d tag=%d code=%d", &id, &tag, &code)
+			if stopMode && tag == 24 {
+				continue // the notice of disconnection
+			}
 			if tag != 5 || next[id] != k {
 				verdict = fmt.Sprintf("writer %d: done after %d of %d entries (tag %d)", id, next[id], k, tag)
 				break
@@ -208,7 +246,7 @@ func (c05Stream) Impl(c Case) string {
 	if verdict == "ok" {
 		wmu.Lock()
 		for id, cnt := range wrote {
-			if cnt != next[id] {
+			if cnt != next[id] && !(stopMode && next[id] <= cnt) {
 				verdict = fmt.Sprintf("writer %d: %d successful writes but %d frames received", id, cnt, next[id])
 			}
 		}
